@@ -14,6 +14,7 @@ import (
 	"github.com/spf13/afero"
 	"pgregory.net/rapid"
 
+	"github.com/foxboron/go-uefi/efi"
 	"github.com/foxboron/go-uefi/efi/attributes"
 	efifs "github.com/foxboron/go-uefi/efi/fs"
 	"github.com/foxboron/go-uefi/efi/signature"
@@ -197,7 +198,11 @@ func checkCase(c Case) error {
 			err = fs.WriteVar(v, m)
 		} else {
 			efifs.SetFS(rec)
-			if c.Global {
+			if va, known := efi.ValidAttributes[name]; c.Global && known && uint32(va) == c.Attrs && len(value)%2 == 0 {
+				// the shortest legacy route: the attributes come from the package's table
+				hx.Class("write/legacy_efi.WriteEFIVariable")
+				err = efi.WriteEFIVariable(name, value)
+			} else if c.Global {
 				err = attributes.WriteEfivars(name, attributes.Attributes(c.Attrs), value)
 			} else {
 				err = attributes.WriteEfivarsWithGuid(name, attributes.Attributes(c.Attrs), value, lg)
